@@ -123,10 +123,11 @@ def unfold_any(sev, env, iface_t, a, impls):
     wf = wf_any_fn(sev)
     key = ('wfunfold', a.get_id(), id(env.st))
     seen = getattr(env.st, '_unfolded', None)
-    done = sev.ex.unfold_done
-    if (a.get_id(), id(env.st.heaps)) in done:
+    done = env.live.psums.setdefault(('wfunfold',), [])
+    ukey = (a.get_id(), tuple(sorted(impls)))
+    if ukey in done:
         return
-    done.add((a.get_id(), id(env.st.heaps)))
+    done.append(ukey)
     for c in impls:
         if c not in m.any_index:
             continue
@@ -358,6 +359,101 @@ def sf_sumAmounts(sev, env, args):
     return psum(sev, env, _senders_term_array(sev, env, s, None, monleaf='Amount'), sev.term(n), 'sumAmounts:' + s.t)
 
 
+# ----------------------------------------------------------------------------- balances requested for a source tree
+
+def sf_leavesPending(sev, env, args):
+    """leavesPending(st, src, asset): every account leaf of the source tree `src` whose balance matters
+    (plain accounts and bounded overdrafts, except @world) is in the pending balance query for `asset`.
+    An uninterpreted predicate over (node, version of the pending set) with its definition by node kind
+    added on creation (one step, both directions) and monotonicity instances between versions."""
+    m = sev.m
+    ex = sev.ex
+    stp, src, asset = args
+    asset_t = sev.term(asset)
+    # version of the pending view in this state
+    sd = ex.db.specs.get('pending')
+    if sd is None or not sd.view:
+        raise SFError('leavesPending needs the view `pending(st, a, c)`')
+    a0 = z3.Const('a!lp', m.Str)
+    c0 = z3.Const('c!lp', m.Str)
+    e2 = env.bind('a!lpv', a0, True).bind('c!lpv', c0, True)
+    sev.view_call(sd, [('id', stp_name(sev, e2, stp)), ('id', 'a!lpv'), ('id', 'c!lpv')], e2)
+    PF, ver = sev.last_view
+    dom, val = _pv_parts(sev, env, stp)
+    LP = m.uf('leaves_pending', m.Any, m.Int, m.Str, dom.sort(), val.sort(), m.Bool)
+    EV = m.uf('eval_val', m.Any, dom.sort(), val.sort(), m.Any)
+    EE = m.uf('eval_err', m.Any, dom.sort(), val.sort(), m.Any)
+    node = src.leaves[0]
+    t = LP(node, ver, asset_t, dom, val)
+    live = env.live
+    # monotonicity between versions (lemma: the predicate only asks for membership, so it survives growth)
+    reg = live.psums.setdefault(('lpver',), [])
+    if all(not v.eq(ver) for (_, v, _) in reg):
+        x = z3.Const('x!lp', m.Any)
+        s_ = z3.Const('s!lp', m.Str)
+        for (_, v1, _) in reg[-3:]:
+            for (lo, hi) in ((v1, ver),):
+                grows = forall([a0, c0], z3.Implies(PF(lo, a0, c0), PF(hi, a0, c0)), patterns=[PF(lo, a0, c0)])
+                live.assume(z3.Implies(grows, forall([x, s_], z3.Implies(LP(x, lo, s_, dom, val), LP(x, hi, s_, dom, val)),
+                                                     patterns=[LP(x, lo, s_, dom, val)])))
+        reg.append((None, ver, None))
+        ex.trusted.add('lemma: leavesPending is monotone in the pending set (induction on the source tree)')
+    if env.bound:
+        return t
+    done = live.psums.setdefault(('lpunfold',), [])
+    ukey = (node.get_id(), ver.get_id(), asset_t.get_id())
+    if ukey in done:
+        return t
+    done.append(ukey)
+    kind = lambda n: sev.type_key(('un', '*', ('sel', ('id', 'parser'), n)))
+
+    def leaf_ok(e_any):
+        v = EV(e_any, dom, val)
+        acct = sev.type_key(('id', 'AccountAddress'))
+        name = m.any_get(acct, v)[0]
+        return z3.Or(EE(e_any, dom, val) != m.Any.nil, z3.Not(m.any_is(acct, v)), name == m.strconst('world'), PF(ver, name, asset_t))
+
+    def field(T, ref, fname):
+        return ex.load(env.st, Ptr('obj', T, fname + '.', ref))
+    # SourceAccount{ValueExpr}
+    k = kind('SourceAccount')
+    ref = m.any_get(k, node)[0]
+    live.assume(z3.Implies(m.any_is(k, node), t == leaf_ok(field(m.elem(k), ref, 'ValueExpr').leaves[0])))
+    # SourceOverdraft{Address, Bounded}
+    k = kind('SourceOverdraft')
+    ref = m.any_get(k, node)[0]
+    bounded = field(m.elem(k), ref, 'Bounded').leaves[0]
+    live.assume(z3.Implies(m.any_is(k, node), t == z3.Or(bounded == 0, leaf_ok(field(m.elem(k), ref, 'Address').leaves[0]))))
+    # SourceCapped{From}
+    k = kind('SourceCapped')
+    ref = m.any_get(k, node)[0]
+    live.assume(z3.Implies(m.any_is(k, node), t == LP(field(m.elem(k), ref, 'From').leaves[0], ver, asset_t, dom, val)))
+    # SourceInorder{Sources}
+    k = kind('SourceInorder')
+    ref = m.any_get(k, node)[0]
+    srcs = field(m.elem(k), ref, 'Sources')
+    i = z3.Int('i!lp')
+    E = m.elem(srcs.t)
+    child = ex.load(env.st, Ptr('elem', E, '', srcs.leaves[0], i)).leaves[0]
+    live.assume(z3.Implies(m.any_is(k, node), t == forall([i], z3.Implies(z3.And(0 <= i, i < srcs.leaves[2]), LP(child, ver, asset_t, dom, val)),
+                                                          patterns=[LP(child, ver, asset_t, dom, val)])))
+    # SourceAllotment{Items[].From}
+    k = kind('SourceAllotment')
+    ref = m.any_get(k, node)[0]
+    items = field(m.elem(k), ref, 'Items')
+    E = m.elem(items.t)
+    child = ex.load(env.st, Ptr('elem', E, 'From.', items.leaves[0], i)).leaves[0]
+    live.assume(z3.Implies(m.any_is(k, node), t == forall([i], z3.Implies(z3.And(0 <= i, i < items.leaves[2]), LP(child, ver, asset_t, dom, val)),
+                                                          patterns=[LP(child, ver, asset_t, dom, val)])))
+    return t
+
+
+def stp_name(sev, env, stp):
+    """bind the programState pointer under a temporary name so that it can be passed to a view by name"""
+    env.vars['st!lp'] = stp
+    return 'st!lp'
+
+
 BUILTINS = {
     'contains': sf_contains,
     'wf': sf_wf,
@@ -370,4 +466,5 @@ BUILTINS = {
     'sumAmounts': sf_sumAmounts,
     'sumRats': sf_sumRats,
     'sumRatsTimes': sf_sumRatsTimes,
+    'leavesPending': sf_leavesPending,
 }
